@@ -55,3 +55,43 @@ package pipeline
 //@   callee back(e)
 //@     requires held == 1
 //@     set held := held - 1
+
+// C09: RetriableBatcher.Out, for every success/failure sequence of the send
+// function (outFn returns any error or nil on every call):
+//   - it returns without giving up only right after a send that returned nil;
+//   - it gives up at most once, only with a non-negative retry count, and only
+//     after more than AttemptNum retries (calls - 1 > AttemptNum);
+//   - on giving up the error callback gets the batch's events exactly once, and
+//     the batch is emptied and marked in-dead-queue iff a dead queue exists,
+//     otherwise left untouched for the main output's commit.
+
+//@ func (*RetriableBatcher).Out
+//@   ghost calls int = 0
+//@   ghost lastnil bool = false
+//@   ghost nerr int = 0
+//@   ensures nerr <= 1
+//@   ensures nerr == 0 ==> lastnil
+//@   ensures nerr == 1 ==> !lastnil && b.backoffOpts.AttemptNum >= 0 && calls - 1 > b.backoffOpts.AttemptNum
+//@   ensures nerr == 1 && batch != nil && b.isDeadQueueAvailable ==> len(batch.events) == 0 && batch.status == BatchStatusInDeadQueue
+//@   ensures nerr == 1 && batch != nil && !b.isDeadQueueAvailable ==> batch.events == old(batch.events) && batch.status == old(batch.status)
+//@   ensures nerr == 0 && batch != nil ==> batch.events == old(batch.events) && batch.status == old(batch.status)
+//@   loop 1 invariant calls == numTries && nerr == 0 && 0 <= numTries
+//@   loop 1 invariant exponentionalBackoff.MaxElapsedTime == 0 && exponentionalBackoff.Stop == -1
+//@   loop 1 invariant batch != nil ==> batch.events == old(batch.events) && batch.status == old(batch.status)
+//@   callee outFn(d, bt) (err)
+//@     pure
+//@     set calls := calls + 1
+//@     set lastnil := err == nil
+//@   callee onRetryError(err, events)
+//@     requires nerr == 0 && !lastnil
+//@     requires batch != nil ==> events == batch.events
+//@     pure
+//@     set nerr := nerr + 1
+//@   callee NewTimer(d)
+//@     pure
+//@   callee Reset(d)
+//@     pure
+
+//@ func (*Batch).reset
+//@   modifies b.events, b.eventsSize, b.status, b.hasIterableEvents, b.startTime
+//@   ensures len(b.events) == 0 && b.status == BatchStatusNotReady
